@@ -253,11 +253,22 @@ def case_cylinder(rng):
     return f"XCyl {clist(rows)} {cexp(out)}", ("Cylinder", n)
 
 
+def reduce_section(p1, p2):
+    """the same section written with angles in [-360, 360]: whole turns removed (the harness's own rule, by stepping)"""
+    p1, p2 = float(p1), float(p2)
+    while p2 > 360:
+        p1, p2 = p1 - 360, p2 - 360
+    while p1 < -360:
+        p1, p2 = p1 + 360, p2 + 360
+    return p1, p2
+
+
 def seg_row_text(obs, dim, pol):
     x, y, z = obs.T
     r, phi = np.sqrt(x ** 2 + y ** 2), np.arctan2(y, x)
     phio2 = phi - np.sign(phi) * 2 * np.pi
-    phi1r, phi2r = dim[:, 3] / 180 * np.pi, dim[:, 4] / 180 * np.pi
+    red = np.array([reduce_section(a, b) for a, b in dim[:, 3:5]])
+    phi1r, phi2r = red[:, 0] / 180 * np.pi, red[:, 1] / 180 * np.pi
     pxy = np.sqrt(pol[:, 0] ** 2 + pol[:, 1] ** 2)
     pabs = np.sqrt(pol[:, 0] ** 2 + pol[:, 1] ** 2 + pol[:, 2] ** 2)
     dphi = phi - np.arctan2(pol[:, 1], pol[:, 0])
@@ -265,7 +276,8 @@ def seg_row_text(obs, dim, pol):
     return [f"{{| cs_r := {cq(r[i])}; cs_phi := {cq(phi[i])}; cs_phio2 := {cq(phio2[i])}; cs_c := {cq(c[i])}; "
             f"cs_s := {cq(s[i])}; cs_z := {cq(z[i])}; cs_r1 := {cq(dim[i, 0])}; cs_r2 := {cq(dim[i, 1])}; "
             f"cs_h := {cq(dim[i, 2])}; cs_phi1 := {cq(dim[i, 3])}; cs_phi2 := {cq(dim[i, 4])}; "
-            f"cs_phi1r := {cq(phi1r[i])}; cs_phi2r := {cq(phi2r[i])}; cs_pol := {cvec(pol[i])}; "
+            f"cs_red1 := {cq(red[i, 0])}; cs_red2 := {cq(red[i, 1])}; cs_phi1r := {cq(phi1r[i])}; "
+            f"cs_phi2r := {cq(phi2r[i])}; cs_pi := {cq(np.pi)}; cs_pol := {cvec(pol[i])}; "
             f"cs_pxy := {cq(pxy[i])}; cs_pabs := {cq(pabs[i])}; cs_dphi := {cq(dphi[i])} |}}" for i in range(len(obs))]
 
 
@@ -302,6 +314,9 @@ def gen_seg_row(rng, full=False):
         o = [rr * d[0] / n_, rr * d[1] / n_, z]
     else:              # anywhere on a coarse grid
         o = [dy(rng, -4, 4, 2), dy(rng, -4, 4, 2), z]
+    if not full:
+        k = rng.choice((0, 0, 0, -1, -2, -3, 1, 2, 3))          # the same body written with angles beyond +-360
+        p1, p2 = p1 + 360 * k, p2 + 360 * k
     return o, [r1, r2, h * rng.choice((1, 1, -1)), p1, p2], gen_pol(rng)
 
 
@@ -946,7 +961,11 @@ def make_scenario(rng, cls):
             p2 = 360
         if p2 - p1 >= 360:
             p1 = p2 - 359.5
-        return {"dimension": [r1, r2, h, p1, p2], "polarization": pol}, pts_segment(rng, r1, r2, h, p1, p2), pol
+        pts = pts_segment(rng, r1, r2, h, p1, p2)          # inside-ness from the angles in the usual range ...
+        k = rng.choice((0, 0, -1, -2, -3, 1, 2))                # ... the body handed over with whole turns added
+        if p1 + 360 * k != p1 and -1100 < p1 + 360 * k and p2 + 360 * k < 1100:
+            p1, p2 = p1 + 360 * k, p2 + 360 * k
+        return {"dimension": [r1, r2, h, p1, p2], "polarization": pol}, pts, pol
     if cls == "Sphere":
         d = rng.choice((1.0, 2.0, fl(rng, 0.2, 5)))
         pol = nz_pol(rng)
@@ -1226,6 +1245,66 @@ def fixed_battery(ctx):
                    "points": PP, "in_out": "auto", "via": VIAS[n % len(VIAS)], "unit": unit}
             run_scenario(ctx, scn)
             ctx.bump("battery:" + cls)
+
+
+def ray_offsets():
+    """the constants subtracted from the lower box corner to get the ray start of mask_inside_trimesh, read from the source"""
+    import ast
+    import os
+    from harness.common import REPO
+    path = os.path.join(REPO, "magpylib", "_src", "fields", "field_BH_triangularmesh.py")
+    tree = ast.parse(open(path).read())
+    fn = next(n for n in tree.body if isinstance(n, ast.FunctionDef) and n.name == "mask_inside_trimesh")
+    for n in ast.walk(fn):
+        if isinstance(n, ast.Call) and isinstance(n.func, ast.Attribute) and n.func.attr == "array" and n.args \
+                and isinstance(n.args[0], (ast.List, ast.Tuple)) and len(n.args[0].elts) == 3 \
+                and all(isinstance(e, ast.Constant) and isinstance(e.value, float) for e in n.args[0].elts):
+            return [e.value for e in n.args[0].elts]
+    raise ValueError("mask_inside_trimesh: the ray start offsets were not found in the source")
+
+
+def fixed_battery2(ctx):
+    """seed-independent: (1) one CylinderSegment body written with its section angles shifted by whole turns to both sides
+    (inside-ness from the angles in the usual range); (2) TriangularMesh boxes placed where `local lower corner minus the
+    ray-start constants of the source` falls INSIDE the body, for several sizes / aspect ratios / units"""
+    rng = __import__("random").Random(20260210)
+    # (1)
+    for base in ((30.0, 120.0), (-170.0, -20.0), (100.0, 350.0), (-10.5, 60.25)):
+        for k in (-3, -2, -1, 0, 1, 2, 3):
+            r1, r2, h = 0.5, 1.5, 1.0
+            pts = pts_segment(rng, r1, r2, h, base[0], base[1])
+            pol = [0.3, -0.4, 1.0]
+            scn = {"kind": "fields", "cls": "CylinderSegment",
+                   "kwargs": {"dimension": [r1, r2, h, base[0] + 360 * k, base[1] + 360 * k], "polarization": pol},
+                   "pos": [0.0, 0.0, 0.0] if k % 2 else [0.5, -1.0, 2.0], "rotvec": [0.0, 0.0, 0.0] if k % 2 else [0.0, 0.0, 0.7],
+                   "pol": pol, "points": pts, "in_out": "auto", "via": VIAS[(k + 3) % len(VIAS)], "unit": 1.0}
+            run_scenario(ctx, scn)
+            ctx.bump("battery:CylinderSegment-turns")
+    # (2)
+    off = np.array(ray_offsets())
+    n = 0
+    for ext in ((1.0, 1.0, 1.0), (1.0, 0.5, 0.25), (0.5, 1.0, 1.0), (0.3, 0.3, 1.0)):
+        for size in (1.0, 2.0, 1e-3):
+            for frac in (0.3, 0.6):
+                e = np.array(ext) * size
+                mn = off + frac * np.array(ext)             # (mn - off) is a point inside the unit-size copy of the body
+                corners = np.array([[mn[0] + a * e[0], mn[1] + b * e[1], mn[2] + c * e[2]] for a in (0, 1) for b in (0, 1) for c in (0, 1)])
+                cen = mn + e / 2
+                pts = [((cen + 0.8 * (c - cen)).tolist(), "inside") for c in corners] + [(cen.tolist(), "inside")]
+                for ax in range(3):
+                    for sg in (-1, 1):
+                        p = cen.copy()
+                        p[ax] += sg * 0.75 * e[ax]
+                        pts.append((p.tolist(), "outside"))
+                pol = [0.0, 0.0, 0.0]
+                pol[n % 3] = 1.0
+                faces = [[corners[i].tolist() for i in f] for f in BOX_FACES]
+                scn = {"kind": "fields", "cls": "TriangularMesh", "kwargs": {"faces": faces, "polarization": pol},
+                       "pos": [0.0, 0.0, 0.0], "rotvec": [0.0, 0.0, 0.0] if n % 2 else [0.0, 0.0, math.pi / 2], "pol": pol,
+                       "points": pts, "in_out": "auto", "via": VIAS[n % len(VIAS)], "unit": 1.0}
+                run_scenario(ctx, scn)
+                ctx.bump("battery:TriangularMesh-ray-start")
+                n += 1
 
 
 def search_fields(ctx, per_class):
@@ -1722,6 +1801,7 @@ def run(ctx):
     big = bool(ctx.broken)
     mult = 5 if big else 1
     run_guarded(ctx, lambda: fixed_battery(ctx), "C02 fixed battery")
+    run_guarded(ctx, lambda: fixed_battery2(ctx), "C02 fixed battery 2")
     run_guarded(ctx, lambda: search_fields(ctx, ctx.n(12, 100) * mult), "C02 field oracle")
     run_guarded(ctx, lambda: search_big_calls(ctx, ctx.n(12, 150) * mult), "C02 many-source calls")
     run_guarded(ctx, lambda: search_mutation_twin(ctx, ctx.n(18, 180) * mult), "C02 mutation vs fresh twin")
